@@ -1023,9 +1023,12 @@ class Consumer(object):
 
         proc_block_begin = 0
         proc_block_end = proc_block_size
+        # These messages belong to the run begun by the start() whose Deferred this is: a
+        # stop() followed by a start() (both possible from inside the processor) ends it.
+        start_d = self._start_d
 
         while proc_block_begin < len(messages) and not self._shuttingdown:
-            if self._stopping or self._start_d is None:
+            if self._stopping or self._start_d is None or self._start_d is not start_d:
                 # stop() cancelled the previous block's processor call (we resume from
                 # inside stop()): the blocks after it must not be handed out, or the
                 # last processed offset would pass the cancelled messages.
@@ -1045,7 +1048,7 @@ class Consumer(object):
             # do this here, in addition to in stop() because the processor func
             # itself could have called stop(), and then when it returned, we re-set
             # self._processor_d to the return of maybeDeferred().
-            if self._stopping or self._start_d is None:
+            if self._stopping or self._start_d is None or self._start_d is not start_d:
                 d.cancel()
                 break
             else:
